@@ -189,7 +189,7 @@ def extra_c14_bounded(prop, tier, seed):
 
 
 def extra_c14_sweep(prop, tier, seed):
-    """Bounded stand-in (labelled, never counted) for the rest of C14 on the REAL entry points: for 25 schemas and
+    """Bounded stand-in (labelled, never counted) for the rest of C14 on the REAL entry points: for 34 schemas and
     every single (and a capped number of double) mutation of a conforming JSON document - Validation lists are
     non-empty, every JSON error location resolves to a node of the validated document, an immediate repeat, the same
     call after all other calls, and the same call on 8 concurrent threads give the same kind and the same ordered
@@ -199,7 +199,7 @@ def extra_c14_sweep(prop, tier, seed):
         raise engine.Undecided('replay-failed', err)
     failing = out.get('failing', [])
     res = {'violations': [], 'bounded': [{'check': 'non-empty lists, resolvable JSON locations, repeat / after-other-calls / concurrent determinism (real entry points)',
-                                          'bound': '25 schemas x single and capped double mutations of a conforming document', 'cases': out.get('tried'),
+                                          'bound': '34 schemas x single and capped double mutations of a conforming document', 'cases': out.get('tried'),
                                           'failing_instances': len(failing)}]}
     if failing:
         w = {'id': failing[0]}
@@ -860,7 +860,7 @@ PROPS = {
         'extra': [extra_c14_bounded, extra_c14_sweep],
         'witness': witness_u8,
         'technique': 'Verus postconditions on mechanically extracted fragments (R7) of the two validate() tails and on cbor_decode_error, over the real error types',
-        'level_text': 'First sentence of C14 only, at the points where the result is constructed: the tail of JSONValidator::validate and of CBORValidator::validate returns Err(Validation(list)) only with a non-empty list, Ok only when no error was recorded, and reports recorded errors; the mapping of CBOR decoder errors (cbor_decode_error) never yields the CDDLParsing or Validation kind (found F8: a malformed CBOR document was reported as CDDLParsing - fixed). That the early returns of the visitor run (`?`) carry non-Validation kinds, the JSON locations, determinism and concurrency are not decided by any contract (the visitor is outside both verifiers); they are explored by two bounded stand-ins on the real entry points (labelled bounded, never counted): 18 fixed error-kind cases, and a sweep over 25 schemas x mutated documents checking non-empty lists, resolvable JSON locations and identical ordered reports on repeat, after other calls and on 8 concurrent threads.',
+        'level_text': 'First sentence of C14 only, at the points where the result is constructed: the tail of JSONValidator::validate and of CBORValidator::validate returns Err(Validation(list)) only with a non-empty list, Ok only when no error was recorded, and reports recorded errors; the mapping of CBOR decoder errors (cbor_decode_error) never yields the CDDLParsing or Validation kind (found F8: a malformed CBOR document was reported as CDDLParsing - fixed). That the early returns of the visitor run (`?`) carry non-Validation kinds, the JSON locations, determinism and concurrency are not decided by any contract (the visitor is outside both verifiers); they are explored by two bounded stand-ins on the real entry points (labelled bounded, never counted): 18 fixed error-kind cases, and a sweep over 34 schemas x mutated documents checking non-empty lists, resolvable JSON locations and identical ordered reports on repeat, after other calls and on 8 concurrent threads.',
         'level_note': 'Trusted: Verus+Z3, vstd Vec::clone/is_empty specs; the error enums are the real ones from the cddl rlib (transparent), their payload types opaque. Unverified: everything in validate() before the tail, Error::from_validator (one-element list by inspection), validate_json_from_str, the wasm variants.',
         'design_ref': 'DESIGN.md 4 U8',
         'scope': 'result construction in json.rs / cbor.rs validate() and decoder-error mapping in validator/mod.rs',
